@@ -236,10 +236,10 @@ CLAIMED["C03"] = dict(
          "carries the 1-based scan number, the match count so far and the 0-based line number, and each component is evaluated in the "
          "state produced by the effects of the earlier components of the same line (c03_sameline). Tie: suite `interp` with "
          "variable-writing programs (assignments with tracking values, push/pop/stack, counter, count family, per-line stacks of "
-         "count_lines/line_number/count_scans/count) compared with the Lean interpreter and with the reference semantics after the run. Source tie (T): `CsvPath._consider_line` is translated from /repo's working tree to Lean on every run (heap mode) and proved to compute the run-loop model's `considerLine` for every contract-keeping matcher (Props/RunTie.consider_line_source_is_model). Source tie (T): `Equality._do_when` (the `->` operator) is translated from /repo's working tree on every run and proved to compute `Model.WhenTop.whenDo` — the right-hand side runs exactly when the left-hand side answers True, in the state the left-hand side left, and is not called otherwise — for every pair of sides that keep the stated contract; the interpreter model's `evalWhen` is an instance (Props/WhenTie).",
+         "count_lines/line_number/count_scans/count) compared with the Lean interpreter and with the reference semantics after the run. Source tie (T): `CsvPath._consider_line` is translated from /repo's working tree to Lean on every run (heap mode) and proved to compute the run-loop model's `considerLine` for every contract-keeping matcher (Props/RunTie.consider_line_source_is_model). Source tie (T): `Equality._do_when` (the `->` operator) is translated from /repo's working tree on every run and proved to compute `Model.WhenTop.whenDo` — the right-hand side runs exactly when the left-hand side answers True, in the state the left-hand side left, and is not called otherwise — for every pair of sides that keep the stated contract; the interpreter model's `evalWhen` is an instance (Props/WhenTie). `LineMonitor.next_line` and `set_end_lines_and_reset` are translated too and proved to keep the counters the run-loop model keeps, for every file (Props/MonitorTie.monitor_over_file: physical count and line number, data count and line number after any list of records).",
     note=INTERP_NOTE + " tally/sum/subtotal/every/first bookkeeping is compared model-vs-code where the model has the function and otherwise "
          "only judged by the oracle when spec_eval defines it.",
-    technique="Lean 4 proof (run-loop counting invariants, component sequencing) + source translator with bridging theorems (_consider_line, _do_when) + interpreter-model correspondence + reference-semantics oracle",
+    technique="Lean 4 proof (run-loop counting invariants, component sequencing) + source translator with bridging theorems (_consider_line, _do_when, LineMonitor.next_line) + interpreter-model correspondence + reference-semantics oracle",
     design="6/C03",
 )
 CLAIMED["C04"] = dict(
